@@ -108,6 +108,8 @@ def check(case):
             Xin = Xtrain
         if history in ("used_buffer_array", "used_buffer_frame"):
             Xin = K.used_buffer(det, Xin, history.endswith("frame"))
+        elif history and history.startswith("predicted_on"):
+            K.related_predict(det, Xin, history)
         scores = det.transform_scores(Xin)
         y = det.predict(Xin)
         thr = float(det.threshold_)
